@@ -228,7 +228,7 @@ func (s *routerSession) op(l []string) (out string) {
 		out := s.req(unhx(l[1]), unhx(l[2]), l[5:])
 		s.nested = nil
 		return out
-	case "TREQ":
+	case "TREQ", "IREQ": // IREQ: the model answers through its index-level matcher
 		if len(l) < 3 {
 			return "bad-op"
 		}
